@@ -151,6 +151,16 @@ type parseResult struct {
 }
 
 // parseWatched runs ParseData with a panic guard and a watchdog.
+// noteCurrent records the input about to be parsed in the file named by VERIFH_CUR, so that the driver can tell
+// which input took the process down when the runtime aborts (a stack overflow or a concurrent map write is a
+// fatal error that no recover() sees).  Only meaningful when inputs are parsed one at a time.
+func noteCurrent(id int, kind string, data []byte) {
+	if p := os.Getenv("VERIFH_CUR"); p != "" {
+		b, _ := json.Marshal(parseLine{Ev: "parse", ID: id, Kind: kind, Outcome: "fatal", Input: base64.StdEncoding.EncodeToString(data)})
+		os.WriteFile(p, b, 0o666)
+	}
+}
+
 func parseWatched(data []byte, limit time.Duration) parseResult {
 	ch := make(chan parseResult, 1)
 	go func() {
@@ -217,9 +227,13 @@ func cmdParse(args []string) error {
 			enc.Encode(parseLine{Ev: "parse", ID: c.ID, Kind: c.Kind, Outcome: "timeout", Msg: "skipped: three earlier calls did not return"})
 			break
 		}
+		noteCurrent(c.ID, c.Kind, []byte(c.Toml))
 		r := parseWatched([]byte(c.Toml), 5*time.Second)
 		if r.outcome == "timeout" {
 			timeouts++
+		}
+		if r.outcome == "panic" || r.outcome == "timeout" {
+			w.Flush()
 		}
 		l := parseLine{Ev: "parse", ID: c.ID, Kind: c.Kind, Outcome: r.outcome, Msg: r.msg, Desc: c.Desc}
 		if r.cfg != nil && len(c.Desc) > 0 {
@@ -262,9 +276,13 @@ func cmdParseFuzz(args []string) error {
 	logged := 0
 	id := 0
 	var wedged int32
+	serial := os.Getenv("VERIFH_SERIAL") != "" // one input at a time, each noted (rerun after a runtime abort)
 	try := func(kind string, data []byte) {
 		if atomic.LoadInt32(&wedged) >= 3 {
 			return
+		}
+		if serial {
+			noteCurrent(0, kind, data)
 		}
 		r := parseWatched(data, 5*time.Second)
 		if r.outcome == "timeout" {
@@ -282,7 +300,7 @@ func cmdParseFuzz(args []string) error {
 		}
 	}
 	var wg sync.WaitGroup
-	sem := make(chan struct{}, 16)
+	sem := make(chan struct{}, map[bool]int{false: 16, true: 1}[serial])
 	run := func(kind string, data []byte) {
 		d := append([]byte(nil), data...)
 		wg.Add(1)
